@@ -914,3 +914,13 @@ def deadline_discipline(ctx, body, wait_rx, clock_rx, key, min_waits=1):
         ctx.check(not early, "%s:not-rearmed-per-iteration" % key, "inside the loop the deadline is re-computed only after the wait (%d site(s))" % len(inside), body.where(w.idx), bad_detail="%s re-computes its deadline at %s on every iteration before waiting: any fragment that ends the wait without ending the loop postpones the timeout" % (short(body.path), ", ".join(body.where(c.idx) for c in early)))
     if n < min_waits:
         raise AnchorError("%s: %d waits in a loop (expected >= %d)" % (key, n, min_waits))
+
+
+def family(prog, body, depth=3):
+    """A body and the closures created (lexically) inside it, recursively: a loop body may live in a closure handed to an
+    iterator adaptor (for_each / try_for_each / fold / map ...) - same code, different syntax."""
+    out = [body]
+    if depth > 0:
+        for ch in prog.children(body):
+            out.extend(family(prog, ch, depth - 1))
+    return out
